@@ -45,6 +45,7 @@ def build_tree(rng, tier):
         pass
 
     pool = []       # created leaves, for sharing
+    tied = {}       # kind -> first module of that kind (source of tied weights)
 
     def leaf(neox):
         r = rng.random()
@@ -58,6 +59,14 @@ def build_tree(rng, tier):
              'relu': nn.ReLU, 'bn': lambda: nn.BatchNorm2d(2), 'emb': lambda: nn.Embedding(3, 2),
              'lstm': lambda: nn.LSTM(2, 2), 'conv1d': lambda: nn.Conv1d(1, 1, 1), 'identity': nn.Identity,
              'col': lambda: ColumnParallelLinear(2, 2), 'row': lambda: RowParallelLinear(2, 2)}[k]()
+        # weight tying: two DIFFERENT modules share one Parameter object (named_parameters() reports it once only)
+        if hasattr(m, 'weight') and isinstance(getattr(m, 'weight', None), torch.nn.Parameter):
+            src = tied.get(k)
+            if src is not None and rng.random() < 0.25:
+                m.weight = src.weight
+                if rng.random() < 0.6:
+                    src.weight.requires_grad_(False)
+            tied.setdefault(k, m)
         ps = list(m.parameters())
         fr = rng.random()
         if ps and fr < 0.15:
